@@ -6,8 +6,9 @@ mkdir -p .deps evidence replays
 if ! PYTHONPATH=/verif/.deps /venv/bin/python -c "import jsonschema" 2>/dev/null; then
   PIP_NO_INDEX=1 /venv/bin/pip install --quiet --no-index --find-links /opt/veriftools/wheels --target /verif/.deps jsonschema
 fi
-for f in spec/*.tla; do
-  case "$f" in */ImportsData.tla|*/Trace*.tla) continue;; esac
+cd /verif/spec
+for f in *.tla; do
+  case "$f" in ImportsData.tla|Trace*.tla) continue;; esac
   grep -q "EXTENDS.*ImportsData\|IOEnv" "$f" && continue
   tla-sany "$f" > /tmp/verif-sany.$$ 2>&1 || { cat /tmp/verif-sany.$$; rm -f /tmp/verif-sany.$$; echo "SANY failed on $f"; exit 1; }
 done
